@@ -152,9 +152,15 @@ def build(S):
         S.contract("refinePoint[dispatch]", FN_REFINE, run_refine_dispatch, shape="-")
         for xp in ("none", "start-inner", "start-outer", "end-inner", "end-outer"):
             S.contract("fillRZ[xpoint=%s]" % xp, FN_FILL, run_fillRZ(xp), shape="nx=2, ny=2")
-        from . import C01_init
+        from . import C01_init, C08
+        from . import topokit as tk
 
         C01_init.add(S)
+        # the only points allowed off their flux surface are the corners pinned to an X-point:
+        # the pin lists name the right radial edge (the X-point's own separatrix) in every topology
+        S.under_contract("hypnotoad.cases.tokamak:TokamakEquilibrium.describeDoubleNull", "hypnotoad.cases.tokamak:TokamakEquilibrium.describeSingleNull")
+        for topo in tk.TOPOLOGIES:
+            S.contract("X-point pins[%s]" % topo, "hypnotoad.cases.tokamak:TokamakEquilibrium.describeDoubleNull", C08.make_pins_run(topo), expected_exceptions=(ValueError,), raises_ok=lambda p: True, shape="sizes symbolic")
 
 
 def post(S):
